@@ -268,6 +268,15 @@ Limits == iv.x = 1 => /\ Cardinality(iv.running) <= iv.j
                       /\ \A p \in {St(g, r.i).pool : r \in iv.running} : PoolDepthG(p) = 0 \/ Cardinality({r \in iv.running : St(g, r.i).pool = p}) <= PoolDepthG(p)
                       /\ \A a, b \in DOMAIN iv.started : a # b => iv.started[a] # iv.started[b]
                       /\ iv.msg # "stuck"
+\* C06, no idle slot: while the failure budget lasts ninja does not sit in a wait (reaping is the only enabled step of the
+\* loop) with a free -j slot and a statement that the plan still wants, that has not started, none of whose producers is
+\* pending, and whose pool has room
+Pending(i) == i \in DOMAIN iv.want /\ iv.want[i] \in {"start", "finish"}
+RefStartable(i) == /\ Pending(i) /\ ~St(g, i).phony /\ i \notin ToS(iv.started)
+                   /\ \A p \in Producers(g, iv.T0, iv.L0, i) : ~Pending(p)
+                   /\ LET pl == St(g, i).pool IN PoolDepthG(pl) = 0 \/ Cardinality({r \in iv.running : St(g, r.i).pool = pl}) < PoolDepthG(pl)
+NoIdle == (pc = "build" /\ iv.x = 1 /\ ~CanStart /\ iv.running # {} /\ Budget(iv) /\ Cardinality(iv.running) < iv.j /\ ~kf)
+            => ~\E i \in Ids(g) : RefStartable(i)
 \* C02
 Converged == (Done /\ last.ok /\ ~kf /\ iv.msg = "nowork") => TRUE
 SecondIsNoop == (pc = "build" /\ last.ok /\ last.targets = iv.targets /\ nenv = 0 /\ ~kf /\ iv.started = <<>> /\ iv.doneOK = {}) => FALSE
